@@ -68,6 +68,7 @@ def wfBad (g : Wf01St) : Label → Bool
     g.seenO.contains o || (match k.msg? with | some m => g.seenM.contains m | none => false)
   | .fire _ (some m) => g.seenM.contains m
   | .tickBegin _ m => g.seenM.contains m
+  | .extBegin _ m => g.seenM.contains m
   | _ => false
 
 def wfNext (g : Wf01St) : Label → Wf01St
@@ -75,9 +76,10 @@ def wfNext (g : Wf01St) : Label → Wf01St
     { seenM := (match k.msg? with | some m => m :: g.seenM | none => g.seenM), seenO := o :: g.seenO }
   | .fire _ (some m) => { g with seenM := m :: g.seenM }
   | .tickBegin _ m => { g with seenM := m :: g.seenM }
+  | .extBegin _ m => { g with seenM := m :: g.seenM }
   | _ => g
 
-/-- message numbers (of `begin`, `fire (some m)`, `tickBegin _ m`) and operation ids (of `begin`) are
+/-- message numbers (of `begin`, `fire (some m)`, `tickBegin _ m`, `extBegin _ m`) and operation ids (of `begin`) are
     pairwise distinct -/
 def monWf01 : Mon Wf01St where
   init := { seenM := [], seenO := [] }
